@@ -17,7 +17,7 @@ from mc.util import Ctx, affine
 
 PROPERTY = "C19"
 RULE = (
-    "explicit-state BFS over sequences of public entry points sharing one set of caller-owned inputs: 44 operations (k-means "
+    "explicit-state BFS over sequences of public entry points sharing one set of caller-owned inputs: 51 operations (k-means "
     "fit numpy/dask/max_iter=0, transform, predict, cluster variances; GMM ML/MAP fit numpy/dask, acc_stats, transform, "
     "log-likelihood; statistics + and +=; linear_scoring with machines / arrays / offsets; ISV and JFA fit from list / bag / "
     "array / dask array, enroll, enroll_using_array, score (single, list), score_using_array, estimate_x/ux, transform; "
@@ -44,6 +44,7 @@ def make_world(s, o):
 
     W = World()
     W.X = np.array([[0.0, 0.0], [1.0, 0.5], [0.5, 1.5], [10.0, 10.0], [11.0, 11.5], [10.5, 9.5], [2.0, 1.0], [9.0, 12.0]]) * s + o
+    W.Xord = W.X[[0, 1, 2, 6, 3, 4, 5, 7]].copy()  # rows ordered by cluster: whole blocks belong to one cluster
     W.y = np.array([0, 1, 0, 1, 0, 1, 1, 0])
     W.ylist = [0, 1, 0, 1, 0, 1, 1, 0]
     W.init = np.array([[0.0, 0.0], [1.0, 1.0]]) * s + o
@@ -116,6 +117,12 @@ def _ops():
         "km_predict_dask": lambda W: np.asarray(km(W, max_iter=0).fit(W.X).predict(_da(W.X, (5, 2)))),
         "km_var_weights": lambda W: km(W, max_iter=0).fit(W.X).get_variances_and_weights_for_each_cluster(W.X),
         "km_var_weights_dask": lambda W: km(W, max_iter=0).fit(W.X).get_variances_and_weights_for_each_cluster(_da(W.X, (3, 2))),
+        "km_var_weights_ordered": lambda W: (km(W, max_iter=4).fit(W.Xord).get_variances_and_weights_for_each_cluster(W.Xord),
+                                             km(W, max_iter=4).fit(W.Xord).get_variances_and_weights_for_each_cluster(_da(W.Xord, (4, 2)))),
+        "gmm_fit_ordered_dask": lambda W: GMMMachine(2, k_means_trainer=km(W, max_iter=4), update_means=True, update_variances=True, update_weights=True,
+                                                     max_fitting_steps=1, convergence_threshold=None).fit(_da(W.Xord, (4, 2))),
+        "km1_var_weights": lambda W: KMeansMachine(1, init_method=W.init[:1], max_iter=1).fit(W.X).get_variances_and_weights_for_each_cluster(W.X),
+        "gmm1_fit": lambda W: GMMMachine(1, k_means_trainer=KMeansMachine(1, init_method=W.init[:1], max_iter=1), max_fitting_steps=1, update_variances=True).fit(W.X),
         "gmm_fit": lambda W: gmm(W).fit(W.X),
         "gmm_fit_dask": lambda W: gmm(W).fit(_da(W.X, (3, 2))),
         "gmm_fit_nosteps": lambda W: GMMMachine(2, k_means_trainer=km(W, max_iter=0), max_fitting_steps=0).fit(W.X),
